@@ -482,7 +482,7 @@ class Env:
                 "activated": ctx.get("_activated_branches"), "bypass": bool(ctx.get("_jump_bypass", False)),
                 "jump_count": ctx.get("_jump_count"), "buffered": len(ctx.get("_buffered_signals", []) or []),
                 "signal": ctx.get("_signal_name"), "ctx_keys": sorted(k for k in ctx if not k.startswith("_") and k not in ("exception",)),
-                "has_exception": "exception" in ctx, "plan_pending": bool(ctx.get("_plan_pending", False)),
+                "has_exception": "exception" in ctx, "plan_pending": bool(ctx.get("_plan_pending", False)), "hydrated": list(ctx.get("_hydrated_keys", []) or []),
                 "user_ctx": {k: v for k, v in ctx.items() if k.startswith("k") and k[1:].isdigit()},
                 "outputs": outs, "tasks": tasks,
             })
